@@ -415,6 +415,27 @@ theorem batched_member_independent (env : BEnv K P X R A) (L r : Nat) (ks : List
   · apply foldl_zipWith_getElem? _ _ _ _ _ _ _ hcol
     rw [List.getElem?_map, hk]; rfl
 
+/-- `actor_step` on a batch — one policy call on the stacked `[B, n]` observations (the policy
+acting member-wise), one batched environment step, `1 - done` element-wise — is the stacked
+member-wise `actor_step`; `generate_unroll` iterates it. -/
+theorem batched_actor_step_eq_map {Ky : Type} (env : BEnv K P X R A) (n : Nat)
+    (hstep : ∀ s a, (env.step s a).obs.length = n) (L r : Nat) (π : List R → Ky → A) (key : Ky)
+    (l : List (ArSt P (List R) X R)) (hl : ∀ s ∈ l, s.firstObs.length = n ∧ s.obs.length = n) :
+    bActorStep bArView (bArStep env L r) (fun obs k => obs.map (π · k)) (BArSt.stack l) key
+      = (BArSt.stack (l.map fun s => (actorStep arView (arStep env L r) π s key).1),
+         BTransition.stack (l.map fun s => (actorStep arView (arStep env L r) π s key).2)) := by
+  have hobs : (bArView (P := P) (X := X)).obs (BArSt.stack l) = l.map (·.obs) := by
+    simp only [bArView, BArSt.stack, BEpSt.stack, BSt.stack, List.map_map, Function.comp_def]
+  have hstepb : bArStep env L r (BArSt.stack l) (l.map fun s => π s.obs key)
+      = BArSt.stack (l.map fun s => arStep env L r s (π s.obs key)) := by
+    have := bArStep_map env L r l (fun s => s) (fun s => π s.obs key) (by
+      intro s hs
+      rw [wfm_inner env n hstep L r s (hl s hs)]; exact (hl s hs).1)
+    simpa only [List.map_id'] using this
+  simp only [bActorStep, hobs, List.map_map, Function.comp_def, hstepb, actorStep, arView]
+  simp only [bArView, BArSt.stack, BEpSt.stack, BSt.stack, BTransition.stack, List.map_map,
+    Function.comp_def]
+
 /-! ## the episode log -/
 
 /-- Refinement of the executable spec.  Take the bare stream of inner sub-steps the wrapped
@@ -474,6 +495,15 @@ accumulated -/
 example :
     let e := evRun (R := Int) scripted 5 2 exScript [0, 0, 0, 0, 0]
     (e.emReward, e.active, e.episodeSteps) = (63, 0, 6) := by decide
+
+/-- observation (what the code does, not a violation): `Evaluator` unrolls `L // r` wrapped
+steps; for `r ∤ L` that is fewer than the `⌈L/r⌉` steps at which the time limit fires, so an
+evaluation episode that never terminates is still active at the end and is scored on
+`⌊L/r⌋·r = 4 < 5` simulated steps. -/
+example :
+    let e := evalRun (R := Int) (Ky := Unit) scripted 5 2 (fun _ _ => 0) (fun _ => ((), ()))
+      { exScript with dones := [] } ()
+    (e.active, e.episodeSteps, e.emReward) = (1, 4, 15) := by decide
 
 /-- an environment that is a function of `(pipeline_state, obs, action)`: a counter that
 terminates at 3; the hypotheses of `episode_replays_fresh`, `eval_first_episode_only` and
